@@ -562,7 +562,7 @@ std::string corruption_class(const Json &op) {
 	if (c == "bitflip" || c == "setbyte" || c == "overwrite") return "bytes";
 	if (c == "truncate") return "truncate";
 	if (c == "zero_block" || c == "drop_block" || c == "dup_block" || c == "swap_blocks") return "blocks";
-	if (c == "card_set" || c == "card_del" || c == "card_add" || c == "del_end" || c == "resize_primary") return "card";
+	if (c == "card_set" || c == "card_del" || c == "card_add" || c == "del_end" || c == "resize_primary" || c == "swap_naxis") return "card";
 	if (c == "drop_ext" || c == "swap_ext" || c == "dup_ext" || c == "resize_ext") return "ext";
 	if (c == "knot_set" || c == "knot_swap" || c == "knots_reverse") return "knots";
 	if (c == "foreign") return "foreign";
@@ -695,6 +695,7 @@ Json gen_corruption(Rng &r, const Bytes &base, const TableSpec &spec) {
 			j["nknots_off"] = Json((long long)(r.chance(0.8) ? 0 : (r.chance(0.5) ? 1 : -1)));   // sometimes one knot too many / too few
 			return j;
 		}
+		if (spec.ndim >= 2 && r.chance(0.08)) { Json j = mk("swap_naxis"); j["a"] = Json((long long)r.below(spec.ndim)); j["b"] = Json((long long)r.below(spec.ndim)); return j; }
 		if (r.chance(0.08)) { Json j = mk("del_end"); j["hdu"] = Json((long long)r.below(hdus.size() ? hdus.size() : 1)); return j; }
 		if (r.chance(0.1)) {
 			Json j = mk("resize_primary");
@@ -878,6 +879,23 @@ bool apply_corruption(Bytes &img, const Json &op, std::string &note) {
 	// ops below splice whole HDUs: an HDU whose header (after an earlier edit) promises more bytes than the
 	// image holds cannot be spliced
 	auto inside = [&](const Hdu &h) { return h.hdr_off <= h.data_off && h.data_off <= h.next_off && h.next_off <= img.size(); };
+	if (c == "swap_naxis") {
+		// the coefficient image keeps its element count but gets another shape: two axis lengths change places
+		// (or, when they are equal, one is halved and the other doubled). Only the two NAXISn cards change.
+		const Hdu &h = hdus[0];
+		if (h.naxis.size() < 2) { note = "fewer than two axes"; return false; }
+		size_t a = (size_t)((uint64_t)op.geti("a") % h.naxis.size()), b = (size_t)((uint64_t)op.geti("b") % h.naxis.size());
+		if (a == b) b = (a + 1) % h.naxis.size();
+		int64_t na = h.naxis[a], nb = h.naxis[b];
+		if (na == nb) { if (na % 2 || na < 2) { note = "equal odd axes"; return false; } na /= 2; nb *= 2; }
+		else std::swap(na, nb);
+		int ca = find_card(h, "NAXIS" + std::to_string(a + 1)), cb = find_card(h, "NAXIS" + std::to_string(b + 1));
+		if (ca < 0 || cb < 0) { note = "no NAXISn card"; return false; }
+		write_card(img, h, (size_t)ca, card_int("NAXIS" + std::to_string(a + 1), na));
+		write_card(img, h, (size_t)cb, card_int("NAXIS" + std::to_string(b + 1), nb));
+		note = "axes " + std::to_string(a + 1) + " and " + std::to_string(b + 1) + " now " + std::to_string(na) + " and " + std::to_string(nb);
+		return true;
+	}
 	if (c == "resize_primary") {
 		const Hdu &h = hdus[0];
 		if (h.naxis.empty()) { note = "primary has no axes"; return false; }
